@@ -1216,3 +1216,214 @@ func init() {
 		return runDriver(cc, modulePath+"/httpgrpc", methodPathDriver, res)
 	}
 }
+
+// Property-level fallback: when an obligation of the property fails and neither a unit
+// driver nor the generic driver reproduces it from the solver's model, the real API is
+// searched over a small stated scope (both transports, the repository's own test service)
+// for a case that violates the property's statement. One run per property and check.
+const propertyHarness = `package httpgrpc_test
+
+import (
+	"context"
+	"io"
+	"net/http"
+	"net/http/httptest"
+	"net/url"
+	"testing"
+
+	"google.golang.org/grpc"
+	"google.golang.org/grpc/codes"
+	"google.golang.org/grpc/metadata"
+	"google.golang.org/grpc/status"
+	"google.golang.org/protobuf/types/known/anypb"
+	"google.golang.org/protobuf/types/known/wrapperspb"
+
+	"github.com/fullstorydev/grpchan"
+	"github.com/fullstorydev/grpchan/grpchantesting"
+	"github.com/fullstorydev/grpchan/httpgrpc"
+	"github.com/fullstorydev/grpchan/inprocgrpc"
+)
+
+// Bounded search on the real API: both transports, the repository's own test service.
+// Run when an obligation of the property failed and no more specific replay reproduced
+// it; finds a failing case when one exists in this (stated) scope.
+func TestZZGovcReplay(t *testing.T) {
+	scenario := %q
+	svr := &grpchantesting.TestServer{}
+	reg := grpchan.HandlerMap{}
+	grpchantesting.RegisterTestServiceServer(reg, svr)
+	var mux http.ServeMux
+	httpgrpc.HandleServices(mux.HandleFunc, "/base/", reg, nil, nil)
+	hs := httptest.NewServer(&mux)
+	defer hs.Close()
+	u, _ := url.Parse(hs.URL + "/base/")
+	var inproc inprocgrpc.Channel
+	grpchantesting.RegisterTestServiceServer(&inproc, svr)
+	chans := map[string]grpc.ClientConnInterface{"http": &httpgrpc.Channel{Transport: http.DefaultTransport, BaseURL: u}, "inproc": &inproc}
+	for name, ch := range chans {
+		cli := grpchantesting.NewTestServiceClient(ch)
+		switch scenario {
+		case "C02", "C14":
+			// every code, with details: unary, server stream (failure before any message), client stream
+			det, _ := anypb.New(wrapperspb.String("detail"))
+			for c := 1; c <= 18; c++ {
+				req := &grpchantesting.Message{Code: int32(c), ErrorDetails: []*anypb.Any{det}}
+				_, err := cli.Unary(context.Background(), req)
+				zzCheckStatus(t, name+" unary", err, codes.Code(c), 1)
+				var oh, ot metadata.MD
+				_, err = cli.Unary(context.Background(), req, grpc.Header(&oh), grpc.Trailer(&ot))
+				zzCheckStatus(t, name+" unary with header and trailer call options", err, codes.Code(c), 1)
+				ss, err := cli.ServerStream(context.Background(), req)
+				if err == nil {
+					_, err = ss.Recv()
+				}
+				zzCheckStatus(t, name+" server-stream", err, codes.Code(c), 1)
+				cs, err := cli.ClientStream(context.Background())
+				if err == nil {
+					cs.Send(req)
+					_, err = cs.CloseAndRecv()
+				}
+				zzCheckStatus(t, name+" client-stream", err, codes.Code(c), 1)
+			}
+			// success is success
+			if _, err := cli.Unary(context.Background(), &grpchantesting.Message{Payload: []byte("x")}); err != nil {
+				t.Errorf("GOVC-REPLAY: VIOLATED %s unary: successful handler reported as %v", name, err)
+			}
+			ss, err := cli.ServerStream(context.Background(), &grpchantesting.Message{Count: 2})
+			if err == nil {
+				n := 0
+				for {
+					_, err = ss.Recv()
+					if err != nil {
+						break
+					}
+					n++
+				}
+				if err != io.EOF || n != 2 {
+					t.Errorf("GOVC-REPLAY: VIOLATED %s server-stream of 2 messages: got %d messages, then %v", name, n, err)
+				}
+			}
+		case "C03":
+			bin := string([]byte{0x00, 0x0a, 0xff, 0x80, 'z'})
+			hdrs := map[string][]byte{"h1": []byte("v1"), "h2-bin": []byte(bin)}
+			tlrs := map[string][]byte{"t1": []byte("w1"), "t2-bin": []byte("ascii only")}
+			ctx := metadata.NewOutgoingContext(context.Background(), metadata.Pairs("req1", "a", "req1", "b", "req2-bin", bin))
+			actx := metadata.AppendToOutgoingContext(context.Background(), "app1", "x", "app2-bin", bin)
+			if aresp, err := cli.Unary(actx, &grpchantesting.Message{}); err != nil || string(aresp.Headers["app1"]) != "x" || string(aresp.Headers["app2-bin"]) != bin {
+				t.Errorf("GOVC-REPLAY: VIOLATED %s unary with metadata appended to the outgoing context: err=%v, the handler saw app1=%q app2-bin=%q, sent \"x\" and %q", name, err, aresp.GetHeaders()["app1"], aresp.GetHeaders()["app2-bin"], bin)
+			}
+			var hd, tr, hd2 metadata.MD
+			resp, err := cli.Unary(ctx, &grpchantesting.Message{Headers: hdrs, Trailers: tlrs}, grpc.Header(&hd), grpc.Trailer(&tr), grpc.Header(&hd2))
+			if err != nil {
+				t.Errorf("GOVC-REPLAY: VIOLATED %s unary with metadata failed: %v", name, err)
+				continue
+			}
+			if string(resp.Headers["req1"]) != "b" || string(resp.Headers["req2-bin"]) != bin {
+				t.Errorf("GOVC-REPLAY: VIOLATED %s unary: the handler saw request metadata req1=%q req2-bin=%q, sent [a b] and %q", name, resp.Headers["req1"], resp.Headers["req2-bin"], bin)
+			}
+			zzCheckMD(t, name+" unary grpc.Header", hd, hdrs)
+			zzCheckMD(t, name+" unary second grpc.Header", hd2, hdrs)
+			zzCheckMD(t, name+" unary grpc.Trailer", tr, tlrs)
+			var shd, str metadata.MD
+			ss, err := cli.ServerStream(ctx, &grpchantesting.Message{Headers: hdrs, Trailers: tlrs, Count: 1}, grpc.Header(&shd), grpc.Trailer(&str))
+			if err != nil {
+				t.Errorf("GOVC-REPLAY: VIOLATED %s server-stream with metadata failed: %v", name, err)
+				continue
+			}
+			h, err := ss.Header()
+			if err != nil {
+				t.Errorf("GOVC-REPLAY: VIOLATED %s server-stream Header(): %v", name, err)
+			}
+			zzCheckMD(t, name+" server-stream Header()", h, hdrs)
+			for {
+				if _, err = ss.Recv(); err != nil {
+					break
+				}
+			}
+			if err != io.EOF {
+				t.Errorf("GOVC-REPLAY: VIOLATED %s server-stream ended with %v", name, err)
+			}
+			zzCheckMD(t, name+" server-stream Trailer()", ss.Trailer(), tlrs)
+			zzCheckMD(t, name+" server-stream grpc.Header", shd, hdrs)
+			zzCheckMD(t, name+" server-stream grpc.Trailer", str, tlrs)
+			// trailers of a failed call
+			var ftr metadata.MD
+			_, err = cli.Unary(ctx, &grpchantesting.Message{Trailers: tlrs, Code: int32(codes.NotFound)}, grpc.Trailer(&ftr))
+			if status.Code(err) != codes.NotFound {
+				t.Errorf("GOVC-REPLAY: VIOLATED %s failing unary: %v", name, err)
+			}
+			zzCheckMD(t, name+" failing unary grpc.Trailer", ftr, tlrs)
+		case "C12":
+			for _, m := range []string{"/grpchantesting.TestService/Unary", "grpchantesting.TestService/Unary"} {
+				if err := ch.Invoke(context.Background(), m, &grpchantesting.Message{}, &grpchantesting.Message{}); err != nil {
+					t.Errorf("GOVC-REPLAY: VIOLATED %s: the registered method %q fails: %v", name, m, err)
+				}
+			}
+			for _, m := range []string{"", "/", "foo", "/grpchantesting.TestService", "/grpchantesting.TestService/", "/grpchantesting.TestService/Nope", "/nope.Service/Unary", "/grpchantesting.TestService/Unary/", "/grpchantesting.TestService//Unary", "/x/../grpchantesting.TestService/Unary", "/grpchantesting.TestService/ServerStream", "/grpchantesting.TestService/unary", "/grpchantesting.TestService/Unar", "/grpchantesting.TestService/Unaryy"} {
+				func() {
+					defer func() {
+						if r := recover(); r != nil {
+							t.Errorf("GOVC-REPLAY: VIOLATED %s: Invoke(%q) panicked: %v", name, m, r)
+						}
+					}()
+					err := ch.Invoke(context.Background(), m, &grpchantesting.Message{Payload: []byte("p")}, &grpchantesting.Message{})
+					if _, ok := status.FromError(err); err == nil || !ok {
+						t.Errorf("GOVC-REPLAY: VIOLATED %s: unary call to the unregistered name %q returned %v, want a status error", name, m, err)
+					}
+				}()
+			}
+			for _, m := range []string{"/grpchantesting.TestService/Unary", "/grpchantesting.TestService/Nope", "/grpchantesting.TestService/ServerStream/", "foo"} {
+				cs, err := ch.NewStream(context.Background(), &grpc.StreamDesc{ServerStreams: true}, m)
+				if err == nil {
+					cs.SendMsg(&grpchantesting.Message{})
+					cs.CloseSend()
+					err = cs.RecvMsg(&grpchantesting.Message{})
+				}
+				if _, ok := status.FromError(err); err == nil || err == io.EOF || !ok {
+					t.Errorf("GOVC-REPLAY: VIOLATED %s: stream to the name %q, which is no registered streaming method, ended with %v, want a status error", name, m, err)
+				}
+			}
+		}
+	}
+}
+
+func zzCheckStatus(t *testing.T, what string, err error, code codes.Code, details int) {
+	st, ok := status.FromError(err)
+	if err == nil || !ok || st.Code() != code || st.Message() != "error" || len(st.Details()) != details {
+		t.Errorf("GOVC-REPLAY: VIOLATED %s: handler returned code %v, message \"error\", %d detail(s); the caller sees %v", what, code, details, err)
+	}
+}
+
+func zzCheckMD(t *testing.T, what string, got metadata.MD, want map[string][]byte) {
+	for k, v := range want {
+		if vs := got[k]; len(vs) != 1 || vs[0] != string(v) {
+			t.Errorf("GOVC-REPLAY: VIOLATED %s: key %q = %q, the handler set %q", what, k, vs, v)
+		}
+	}
+}
+`
+
+var propertyHarnessScenario = map[string]string{"C02": "C02", "C14": "C14", "C03": "C03", "C12": "C12"}
+
+func (cc *checkCtx) propertyFallback(prop string) map[string]interface{} {
+	sc, ok := propertyHarnessScenario[prop]
+	if !ok {
+		return nil
+	}
+	cc.mu.Lock()
+	if cc.harnessDone == nil {
+		cc.harnessDone = map[string]map[string]interface{}{}
+	}
+	if r, ok := cc.harnessDone[prop]; ok {
+		cc.mu.Unlock()
+		return r
+	}
+	cc.mu.Unlock()
+	res := map[string]interface{}{"attempted": false, "kind": "property-level bounded search on the real API (not derived from the solver's model)"}
+	res["inputs"] = map[string]interface{}{"scenario": sc, "scope": "HTTP and in-process channel, grpchantesting.TestServer: every code 1..18 with a detail on unary/server-stream/client-stream; request metadata with repeated keys and arbitrary -bin bytes, response headers/trailers through Header()/Trailer() and duplicated call options, trailers of a failed call; registered and fourteen unregistered or malformed method names"}
+	res = runDriver(cc, modulePath+"/httpgrpc", strings.Replace(propertyHarness, "%q", fmt.Sprintf("%q", sc), 1), res)
+	cc.mu.Lock()
+	cc.harnessDone[prop] = res
+	cc.mu.Unlock()
+	return res
+}
